@@ -50,6 +50,8 @@ class C02(runner.Check):
         add("FPS", "sample", 5, 2, 3, 0, cost=5)
         add("PCovFPS", "sample", 4, 2, 3, 0, p=1, cost=6)
         add("PCovFPS", "sample", 3, 2, 3, 1, p=1, cost=2)
+        add("PCovFPS", "sample", 3, 2, 3, 0, p=1, cost=3, prefit=True)  # same object fitted before on other data / mixing
+        add("FPS", "sample", 4, 2, 3, 2, cost=3, prefit=True)
         for fr in frames.right_frames(2)[:2]:
             add("PCovFPS", "feature", 4, 2, 2, 0, p=1, cost=3, family={"V": fr["name"]})
         if tier == "thorough":
@@ -82,6 +84,17 @@ class C02(runner.Check):
             c.assume(mixing < 1)
             over["mixing"] = mixing
         sel = sc.make_selector(cfg, **over)
+        if cfg.get("prefit"):
+            # history: the same estimator object was fitted before on other data (and another mixing); nothing may leak
+            n_, m_ = X.shape
+            Xp = arrays.exact([[(3 * i + 2 * j) % 5 - 2 for j in range(m_)] for i in range(n_)])
+            yp = arrays.exact([[i - 1] for i in range(n_)]) if y is not None else None
+            if mixing is not None:
+                sel.mixing = c.const(core.Fraction(1, 4))
+            with sc.quiet():
+                sel.fit(Xp, yp)
+            if mixing is not None:
+                sel.mixing = mixing
         with sc.quiet():
             sel.fit(X, y)
         idx = [int(i) for i in sel.selected_idx_]
@@ -154,6 +167,16 @@ class C02(runner.Check):
             mixing = float(values.get("mix", 0.5))
             over["mixing"] = mixing
         sel = sc.make_selector(cfg, **over)
+        if cfg.get("prefit"):
+            n_, m_ = X.shape
+            Xp = np.array([[(3 * i + 2 * j) % 5 - 2 for j in range(m_)] for i in range(n_)], dtype=float)
+            yp = np.array([[i - 1] for i in range(n_)], dtype=float) if y is not None else None
+            if mixing is not None:
+                sel.mixing = 0.25
+            with sc.quiet():
+                sel.fit(Xp, yp)
+            if mixing is not None:
+                sel.mixing = mixing
         with sc.quiet():
             sel.fit(X, y)
         idx = [int(i) for i in sel.selected_idx_]
